@@ -4,6 +4,7 @@
 #include <cstring>
 #include <pthread.h>
 #include <semaphore.h>
+#include <sched.h>
 #include <sys/time.h>
 #include <sys/wait.h>
 #include <unistd.h>
@@ -76,6 +77,18 @@ void yield_hook(SimEnv* e) {
     me.pi++;
     switch_from(e->task, false);
   }
+}
+void wait_hook(SimEnv* e) {
+  // the running task cannot proceed until a parked task releases something: hand the baton on (a scheduling decision like
+  // any other: logged, seeded); with nobody else runnable just spin politely
+  if (!g_sched || e->task < 0 || g_sched->free_running) {
+    sched_yield();
+    return;
+  }
+  if (g_sched->stats)
+    g_sched->stats->hit("sched.cooperative_waits_on_library_synchronisation");
+  g_sched->ts[e->task].ycount++;
+  switch_from(e->task, false);
 }
 void budget_hook(SimEnv*) {
   const char m[] = "X budget\n";
@@ -334,6 +347,7 @@ RunResult run_plan(const Plan& pin, const RunOpts& ro, Stats* stats) {
   Plan p = pin;
   sim_yield_hook = yield_hook;
   sim_budget_hook = budget_hook;
+  sim_wait_hook = wait_hook;
   signal(SIGVTALRM, watchdog_handler);
   // ---- solo pass first: every call alone, sequentially, in a clean environment. Its results are the oracle for the
   // simulated history, and its yield counts are what the PCT preemption points are drawn against.
